@@ -164,6 +164,10 @@ def run(ck):
                 mal.append(("cP", a, T, A))
         mal.append(("cP", base, None, A))
         mal.append(("cP", base, 0, A))
+    # the SAME unknown / missing unit (or mode) on both sides: nothing to convert, still not a representation
+    for b in BAD + ["psi", "Bar", "pa"]:
+        mal.append(("cP", ["absolute", "absolute", b, b], T, A))
+        mal.append(("cP", [b, b, "bar", "bar"], T, A))
     for name, a, temp, ads in mal:
         add(" ".join(["cP", tok(cx.psat), "T" if temp else "F", "1/1"] + [tok(x) for x in a]),
             (lambda a=a, temp=temp, ads=ads: c_pressure(1.0, a[0], a[1], a[2], a[3], ads, temp)),
@@ -191,6 +195,14 @@ def run(ck):
                     add(" ".join(["cM"] + cxx.env_tokens() + ["1/1"] + [tok(x) for x in a]),
                         (lambda a=a, cxx=cxx: c_material(1.0, a[0], a[1], a[2], a[3], cxx.mat)),
                         None, ("Mbad", tuple(a), cxx.name), "malformed", False)
+    for b in BAD + ["furlong"]:
+        for (bf, bt, mb, mu) in (("mass", "mass", "mass", "g"), ("molar", "molar", "mass", "g")):
+            a = [bf, bt, b, b, mb, mu]
+            add(" ".join(["cL"] + cx.env_tokens() + ["1/1"] + [tok(x) for x in a]),
+                (lambda a=a: c_loading(1.0, a[0], a[1], a[2], a[3], cx.ads, cx.temp, a[4], a[5])), None, ("Lbad-same", tuple(a), cx.name), "malformed", False)
+        a = ["mass", "mass", b, b]
+        add(" ".join(["cM"] + cx.env_tokens() + ["1/1"] + [tok(x) for x in a]),
+            (lambda a=a: c_material(1.0, a[0], a[1], a[2], a[3], cx.mat)), None, ("Mbad-same", tuple(a), cx.name), "malformed", False)
     for a in itertools.product([None, "", "bogus", "F", "K", "C"], repeat=2):
         add(" ".join(["cT", "5/1", tok(a[0]), tok(a[1])]), (lambda a=a: c_temperature(5.0, a[0], a[1])),
             None, ("Tbad", a), "malformed", False)
